@@ -64,6 +64,7 @@ func DrawScenario(t *Tape, property string) (*Scenario, Config) {
 		sc.Steps = append(sc.Steps, st)
 	}
 	sc.RolloutID = t.Next(3) == 1
+	drawEvents(t, sc)
 	sc.HashCompat = t.Next(2) == 1
 
 	cfg := Config{MaxSteps: 6000, MaxSimTime: 2 * time.Hour, PreemptPermyr: 2000}
@@ -79,4 +80,37 @@ func DrawScenario(t *Tape, property string) (*Scenario, Config) {
 	cfg.EnvDelayMaxMs = []int{0, 200, 3000}[t.Next(3)]
 	cfg.ReadyDelayMaxS = []int{0, 2, 20}[t.Next(3)]
 	return sc, cfg
+}
+
+var stepStates = []string{"BeforeStepUpgrade", "StepUpgrade", "StepTrafficRouting", "StepMetricsAnalysis", "StepPaused", "StepReady"}
+
+// drawEvents: 0..2 scripted disturbances, each triggered when the rollout reaches a drawn (step, sub-state).
+func drawEvents(t *Tape, sc *Scenario) {
+	n := t.Pick(5, 4, 2)
+	kinds := []string{"scale", "rollback", "release-v3", "pause", "jump", "edit-plan", "disable", "delete-rollout", "hostile-jump", "unpause-workload"}
+	for i := 0; i < n; i++ {
+		ev := UserEvent{Kind: kinds[t.Next(len(kinds))]}
+		ev.AtStep = 1 + t.Next(len(sc.Steps))
+		ev.AtState = stepStates[t.Next(len(stepStates))]
+		switch ev.Kind {
+		case "scale":
+			ev.Arg = 1 + t.Next(2*sc.Replicas+2)
+		case "jump":
+			ev.Arg = 1 + t.Next(len(sc.Steps))
+		case "hostile-jump":
+			vals := []int{0, -1, -5, len(sc.Steps) + 1, len(sc.Steps) + 5, 2147483647, len(sc.Steps)}
+			ev.Arg = vals[t.Next(len(vals))]
+		case "edit-plan":
+			ev.Arg = t.Next(1000)
+		}
+		sc.Events = append(sc.Events, ev)
+		switch ev.Kind {
+		case "pause":
+			sc.Events = append(sc.Events, UserEvent{Kind: "resume", After: "pause", Arg: 1 + t.Next(30)})
+		case "disable":
+			if t.Next(2) == 1 {
+				sc.Events = append(sc.Events, UserEvent{Kind: "enable", After: "disable", Arg: 5 + t.Next(60)})
+			}
+		}
+	}
 }
